@@ -205,7 +205,7 @@ def strategy(thorough):
 def run_shard(ctx):
     stats = core.Stats()
     thorough = ctx.tier == "thorough"
-    core.hyp_search(strategy(thorough), lambda c: execute(c, ctx.scratch), stats, max_examples=300 if thorough else 70,
+    core.hyp_search(strategy(thorough), lambda c: execute(c, ctx.scratch), stats, max_examples=1500 if thorough else 70,
                     seed=core.hash64(ctx.seed, ID, ctx.shard), findings=ctx.findings, shrink=True,
                     deadline_s=(ctx.deadline - time.time()) if ctx.deadline else None)
     return stats
